@@ -221,3 +221,28 @@ func (r *VerifRetx) Outstanding() []int64 {
 	return out
 }
 
+
+// UdialHandlerKind reports what the Transport's packet handler map holds under the connection ID:
+// 0 nothing, 1 a live connection (returned), 2 a closedLocalConn, 3 a closedRemoteConn, 4 other.
+func UdialHandlerKind(t *Transport, id []byte) (int, *Conn) {
+	t.mutex.Lock()
+	defer t.mutex.Unlock()
+	h, ok := t.handlers[protocol.ParseConnectionID(id)]
+	if !ok {
+		return 0, nil
+	}
+	switch v := h.(type) {
+	case *wrappedConn:
+		return 1, v.Conn
+	case *closedLocalConn:
+		return 2, nil
+	case *closedRemoteConn:
+		return 3, nil
+	}
+	return 4, nil
+}
+
+// UdialDestroy closes the connection immediately (Conn.destroy: no CONNECTION_CLOSE, the
+// connection IDs are removed from the handler map at once), as a cancelled dial or an idle
+// timeout does.
+func UdialDestroy(c *Conn, err error) { c.destroy(err) }
